@@ -46,6 +46,16 @@ def o_roundtrip(a):
     back = eph.phase_to_met(ph, a['start'], a['duration'])
     periods = a['duration'] * a['eph']['nu0']
     err_cycles = float(numpy.abs((back - t) * a['eph']['nu0']).max())
+    # a pilot window first, then a much longer one from the same start with the same ephemeris numbers (another object): the second
+    # inversion is as good as the first
+    D2 = 40. * a['duration']
+    t2 = numpy.sort(g.uniform(a['start'], a['start'] + D2, 300))
+    eph2 = xEphemeris(**a['eph'])
+    back2 = eph2.phase_to_met(eph2.met_to_phase(t2), a['start'], D2)
+    err2 = float(numpy.abs((back2 - t2) * a['eph']['nu0']).max())
+    env2 = 5e-12 * D2 * a['eph']['nu0'] + 2e-7 + 16. * float(numpy.spacing(a['start'] + D2)) * a['eph']['nu0'] + 4. * float(numpy.spacing(numpy.abs(eph2.met_to_phase(t2)).max()))
+    if err2 > max(env2, 1e-6):
+        err_cycles = max(err_cycles, err2)
     if a['eph']['nudot0'] == 0. and a['eph']['nuddot'] == 0.:
         # constant frequency: the zero-order guesses behind the optional arguments are exact, so every documented way of calling the
         # inverse (window given, only its start given, nothing given) must round trip, also for events from a later part of the window
@@ -144,6 +154,20 @@ def o_source(a):
                 bad.append('file starting at %r: PHASE differs from fold(TIME, TSTART) by up to %.3g' % (start, dd.max()))
             if ((ph < 0) | (ph >= 1.0000001)).any():
                 bad.append('PHASE outside [0, 1)')
+        # the same files folded through the pipeline wrapper with an ephemeris handed over programmatically (`**ephemeris.dict()`), as the
+        # example pipelines do: an epoch before the mission reference date (negative MET with ten significant digits) and a frequency derivative
+        from ixpeobssim.core import pipeline
+        e2 = dict(met0=-186883200.25 - float(a['seed'] % 1000), nu0=29.946923 + 1e-7 * (a['seed'] % 97), nudot0=-3.77535e-10, nuddot=1.1147e-20)
+        outl = pipeline.xpphase(*paths, suffix='pipe', overwrite=True, **e2)
+        for p, o, start in zip(paths, outl, a['starts']):
+            with fits.open(o) as h:
+                t = numpy.array(h['EVENTS'].data['TIME'], dtype=float)
+                ph = numpy.array(h['EVENTS'].data['PHASE'], dtype=float)
+                tstart = h['EVENTS'].header['TSTART']
+            ref = xEphemeris(**e2).fold(t, tstart)
+            dd = numpy.abs(((ph - ref + 0.5) % 1.) - 0.5)
+            if len(t) and dd.max() > 2e-6:      # PHASE is a float32 column; the absolute phase is ~ 1e10 cycles
+                bad.append('pipeline.xpphase with met0 = %r: PHASE differs from fold(TIME, TSTART) by up to %.3g' % (e2['met0'], dd.max()))
     return not bad, dict(violated=bad)
 
 
